@@ -84,6 +84,7 @@ let run_est (c : Caseio.case) =
       out_vec ("smw" ^ ks) sm; out_vec ("wmw" ^ ks) wm; out_vec ("emw" ^ ks) em)
     ops;
   Caseio.out_int "info_window" (int_of_nat (c17_window fops !st));
+  Caseio.out_int "caches_reachable" 1;
   Caseio.out_end ()
 
 let run_hb (c : Caseio.case) =
